@@ -21,7 +21,7 @@ func init() {
 		Rule:           "families, each enumerated completely: (1) ALL ordered pairs of user types from a pool of 10 bodies (integer, ranged integer, string, min-length string, two objects, two arrays, boolean, float) + a derived third type (alias / or / nullable alias / nullable or-alias) x 15 root constructs (@A, @A|@B, via alias, same type via two paths, {type:\"@A\"}, or-lists with names / {type:\"@A\"} / inline rule-sets (also with nullable next to the type) / JSON kinds) x nullable x 6 positions (root, property, array element, arrays with minItems / maxItems) x ALL documents <= 3 nodes over 6 scalars and keys k,l,p (arrays of <= 3 elements for array positions); (2) allOf: 9 parent/child configurations (depth <= 2, lists, optional keys) x 4 additionalProperties settings x ALL 1024 objects over 5 keys x 3 values; (3) additionalProperties: 12 settings x 60 objects; (4) key shortcuts: 5 key types x required/optional/optional-by-default x 2 layouts x ALL objects with <= 3 members over 6 keys, and every ordered pair of key types as TWO shortcuts of one object. Oracles: three-valued reference set semantics; differentials verdict(@A|@B) == verdict(@A) or verdict(@B). Non-trivial = distinct (schema, environment, document) with decided reference.",
 		Run:            run,
 		Replay:         replay,
-		QuickBudget:    80 * time.Second,
+		QuickBudget:    200 * time.Second,
 		ThoroughBudget: 14 * time.Minute,
 		Assumptions: []string{
 			"not asserted: two keys matching one shortcut entry, one key matching two entries, presence of a non-optional shortcut entry, rule-less key types, integer under additionalProperties float, duplicate document keys",
@@ -333,6 +333,12 @@ func allOfFamily(c *enumCtx) {
 		{Name: "@P2", Body: gen.Obj(gen.P("b", gen.Str(`"s"`).With(gen.R("optional", "true"))))},
 		{Name: "@P3", Body: gen.Obj(gen.P("c", gen.Bool("true"))).With(gen.R("allOf", `"@P1"`))},
 		{Name: "@P4", Body: gen.Obj(gen.P("c", gen.Bool("true").With(gen.R("optional", "true")))).With(gen.RL("allOf", lit(`"@P1"`), lit(`"@P2"`)))},
+		// parents that declare additionalProperties themselves (the heir's own rule, also an explicit
+		// false, must keep its meaning next to them), directly and one level up
+		{Name: "@PA", Body: gen.Obj(gen.P("a", gen.Int("1"))).With(gen.R("additionalProperties", `"any"`))},
+		{Name: "@PS", Body: gen.Obj(gen.P("a", gen.Int("1"))).With(gen.R("additionalProperties", `"string"`))},
+		{Name: "@PT", Body: gen.Obj().With(gen.R("additionalProperties", "true"))},
+		{Name: "@PG", Body: gen.Obj(gen.P("c", gen.Bool("true"))).With(gen.R("allOf", `"@PA"`))},
 	}
 	mk := func(props []gen.Prop, rules ...gen.Rule) *gen.Node { return gen.Obj(props...).With(rules...) }
 	r1 := []gen.Prop{gen.P("r", gen.Int("1"))}
@@ -347,6 +353,11 @@ func allOfFamily(c *enumCtx) {
 		mk(r1, gen.R("allOf", `"@P2"`)),
 		mk(r1, gen.RL("allOf", lit(`"@P3"`), lit(`"@P2"`))),
 		mk(r1),
+		mk(r1, gen.R("allOf", `"@PA"`)),
+		mk(ropt, gen.R("allOf", `"@PS"`)),
+		mk(r1, gen.R("allOf", `"@PT"`)),
+		mk(nil, gen.R("allOf", `"@PG"`)),
+		mk(r1, gen.RL("allOf", lit(`"@P2"`), lit(`"@PA"`))),
 	}
 	aps := []*gen.Rule{nil, {Name: "additionalProperties", Val: "false"}, {Name: "additionalProperties", Val: "true"}, {Name: "additionalProperties", Val: `"string"`}}
 	keys := []string{"a", "b", "c", "r", "z"}
